@@ -608,6 +608,9 @@ func (e *Env) trCall(x *ECall) TV {
 			return TV{T: App("<", SBool, App("s_arr", SInt, a.T), e.u.allocBase), Ty: boolT}
 		}
 		return TV{T: App("<", SBool, a.T, e.u.allocBase), Ty: boolT}
+	case "ifacePtr": // the reference (pointer, map) held by an interface value
+		need(1)
+		return TV{T: App("iint", SInt, argOf(0).T), Ty: intT}
 	case "lockerAddr": // the pointer held by a sync.Locker interface value
 		need(1)
 		return TV{T: App("iint", SInt, argOf(0).T), Ty: intT}
